@@ -497,7 +497,11 @@ pub fn wrap_fdt(xml: &[u8], tsi: u64, fdt_id: u32, e: usize, cenc: Option<u8>, w
         exts.push(wire::ext_cenc(c));
     }
     if with_sct {
-        let (hi, lo) = wire::unix_us_to_ntp(util::at(1000).duration_since(SystemTime::UNIX_EPOCH).unwrap().as_micros() as u64);
+        // the sender's clock as stamped in EXT_TIME: equal to the receiver's, or up to ten minutes behind / ahead of it
+        // (deterministic in the instance id and the document length; FDTs of the harness are valid for an hour)
+        let delta_s: i64 = [0i64, -600, -10, 10, 600][(fdt_id as usize + xml.len()) % 5];
+        let sender_now = if delta_s >= 0 { util::at(1000) + std::time::Duration::from_secs(delta_s as u64) } else { util::at(1000) - std::time::Duration::from_secs((-delta_s) as u64) };
+        let (hi, lo) = wire::unix_us_to_ntp(sender_now.duration_since(SystemTime::UNIX_EPOCH).unwrap().as_micros() as u64);
         exts.push(wire::ext_time(&wire::Sct { hi: Some(hi), lo: Some(lo), ert: None, slc: None }, 0));
     }
     exts.push(wire::ext_fti(&fti));
